@@ -461,6 +461,28 @@ def run(tier):
     entries10, table10 = entry_path_rule(fx, ck)
     ck.anchor(len(entries10) >= 2, "entry points taking source + module path (found %s)" % [f.path.split("::")[-1] for f, _ in entries10])
     ck.anchor("current_module_path" in table10, "Interpreter.current_module_path is set from the module-path parameter by an entry point")
+    # S12: an uncaught script error leaves the interpreter in one shape.  The run loop materialises a thrown value (name, message, class) before it
+    # returns it; the resume paths of step() - an awaited promise that was rejected while the run was suspended, an order answered with an error -
+    # must do the same with the `JsError::thrown(..)` they build, or the same failure is reported differently depending on whether the run suspended.
+    ck.rule("S12.thrown-errors-materialised", "in the functions of Interpreter that answer with a StepResult, every JsError::thrown(..) is handed to materialize_thrown_error "
+            "before it is returned", floor=1)
+    from c09 import ancestors as anc12
+    n12 = 0
+    for p12, f12 in sorted(fx.fns.items()):
+        if f12.derived or not (f12.parent if f12.closure else p12).startswith("interpreter::Interpreter::") or not f12.sig or "StepResult" not in fx.tys(f12.sig[-1]):
+            continue
+        mats = [t for bi, t in f12.calls() if (t[1].get("d") or "").endswith("::materialize_thrown_error")]
+        for bi, t in f12.calls():
+            if not (t[1].get("d") or "").endswith("JsError::thrown") or t[3][1]:
+                continue
+            n12 += 1
+            ok12 = any(a[0] in ("c", "m") and t[3][0] in anc12(f12, a[1][0]) for m in mats for a in m[2])
+            ck.instance("S12.thrown-errors-materialised", "%s: JsError::thrown" % p12, F.short_span(t[6]), ok=ok12)
+            if not ok12:
+                ck.finding("S12.thrown-errors-materialised", "S12.thrown-errors-materialised/%s" % p12, F.short_span(t[6]),
+                           "`%s` returns a bare `JsError::thrown(..)`: the host sees `ThrownValue` where the same uncaught error of a run that did not suspend is reported "
+                           "with its name and message (`await order(..)` answered with a promise that is rejected later)" % p12)
+    ck.anchor(n12 >= 1, "JsError::thrown constructions in StepResult-returning functions of Interpreter (found %d)" % n12)
     inst11 = handover_rule(fx, ck)
     ck.anchor(len(inst11) >= 2, "functions installing a module scope (found %s)" % [f.path.split("::")[-1] for f, _ in inst11])
     return ck.finish()
